@@ -328,6 +328,47 @@ pub fn ir_size(m: &naga::Module) -> Value {
 
 static SEQ: AtomicU64 = AtomicU64::new(0);
 
+/// What a call could leave behind in the process: descriptors, children, working directory,
+/// environment, SIGPIPE disposition, umask.
+pub struct ProcState {
+    fds: usize,
+    children: Vec<u64>,
+    cwd: String,
+    env: String,
+    sigpipe: usize,
+    umask: u32,
+}
+
+pub fn process_state() -> ProcState {
+    let fds = std::fs::read_dir("/proc/self/fd").map(|d| d.count()).unwrap_or(0);
+    let mut children = Vec::new();
+    if let Ok(tasks) = std::fs::read_dir("/proc/self/task") {
+        for t in tasks.flatten() {
+            if let Ok(s) = std::fs::read_to_string(t.path().join("children")) {
+                children.extend(s.split_whitespace().filter_map(|x| x.parse::<u64>().ok()));
+            }
+        }
+    }
+    children.sort();
+    let cwd = std::env::current_dir().map(|p| p.display().to_string()).unwrap_or_default();
+    let mut ev: Vec<String> = std::env::vars_os()
+        .map(|(k, v)| format!("{}={}", k.to_string_lossy(), v.to_string_lossy()))
+        .collect();
+    ev.sort();
+    let env = hash_hex(ev.join("\n").as_bytes());
+    let sigpipe = unsafe {
+        let mut old: libc::sigaction = std::mem::zeroed();
+        libc::sigaction(libc::SIGPIPE, std::ptr::null(), &mut old);
+        old.sa_sigaction
+    };
+    let umask = unsafe {
+        let m = libc::umask(0o022);
+        libc::umask(m);
+        m
+    };
+    ProcState { fds, children, cwd, env, sigpipe, umask: umask as u32 }
+}
+
 fn marker(s: &str) {
     // A write to fd -1 fails with EBADF but is visible to strace: brackets for the syscall monitor.
     unsafe { libc::write(-1, s.as_ptr() as *const libc::c_void, s.len()) };
@@ -355,6 +396,18 @@ pub fn run_job(job: &Value, markers: bool) -> Value {
     let repeat = job.get("repeat").and_then(|v| v.as_u64()).unwrap_or(1).max(1);
 
     let mut out = json!({"id": id});
+    // process-wide environment changes requested by the workload BEFORE the call (sequences such
+    // as "formatter missing for one call, back for the next"); single-threaded runs only
+    if let Some(envs) = job.get("set_env").and_then(|v| v.as_object()) {
+        for (k, v) in envs {
+            match v.as_str() {
+                Some(val) => std::env::set_var(k, val),
+                None => std::env::remove_var(k),
+            }
+        }
+    }
+    let want_state = job.get("state").and_then(|v| v.as_bool()).unwrap_or(false);
+    let state_before = if want_state { Some(process_state()) } else { None };
     let mut last: Option<Result<Result<String, CreateModuleError>, String>> = None;
     let mut hashes = Vec::new();
     #[allow(unused_assignments)]
@@ -381,6 +434,59 @@ pub fn run_job(job: &Value, markers: bool) -> Value {
             hashes.push(hash_hex(t.as_bytes()));
         }
         last = Some(r);
+    }
+    if let Some(b) = state_before {
+        let a = process_state();
+        out["state"] = json!({
+            "fds_before": b.fds, "fds_after": a.fds, "children_after": a.children,
+            "children_before": b.children,
+            "cwd_changed": a.cwd != b.cwd, "env_changed": a.env != b.env,
+            "sigpipe_changed": a.sigpipe != b.sigpipe, "umask_changed": a.umask != b.umask,
+        });
+    }
+    if let Some(src2) = job.get("inplace").and_then(|v| v.as_str()) {
+        // the caller reuses ITS buffer: same address, same length, other text
+        let mut buf = source.clone();
+        let first = catch_unwind(AssertUnwindSafe(|| match include_path {
+            Some(p) => create_shader_module(&buf, p, options),
+            None => create_shader_module_embedded(&buf, options),
+        }));
+        let _ = first;
+        if src2.len() == buf.len() {
+            unsafe { buf.as_bytes_mut().copy_from_slice(src2.as_bytes()) };
+            let second = catch_unwind(AssertUnwindSafe(|| match include_path {
+                Some(p) => create_shader_module(&buf, p, options),
+                None => create_shader_module_embedded(&buf, options),
+            }))
+            .map_err(|_| take_panic_msg());
+            let fresh_src = src2.to_string();
+            let fresh = std::thread::spawn(move || {
+                catch_unwind(AssertUnwindSafe(|| match None::<&str> {
+                    Some(p) => create_shader_module(&fresh_src, p, options),
+                    None => create_shader_module_embedded(&fresh_src, options),
+                }))
+                .map_err(|_| take_panic_msg())
+            });
+            let fresh = if include_path.is_some() {
+                // include variant: compare with a direct call on a fresh buffer in this thread
+                let f2 = src2.to_string();
+                drop(fresh);
+                catch_unwind(AssertUnwindSafe(|| {
+                    create_shader_module(&f2, include_path.unwrap(), options)
+                }))
+                .map_err(|_| take_panic_msg())
+            } else {
+                fresh.join().unwrap_or(Err("fresh thread died".into()))
+            };
+            let sha = |r: &Result<Result<String, CreateModuleError>, String>| match r {
+                Ok(Ok(t)) => hash_hex(t.as_bytes()),
+                Ok(Err(e)) => format!("ERR:{e}"),
+                Err(p) => format!("PANIC:{p}"),
+            };
+            out["inplace"] = json!({"second": sha(&second), "fresh": sha(&fresh)});
+        } else {
+            out["inplace"] = json!({"error": "length differs"});
+        }
     }
     out["seq"] = json!(SEQ.fetch_add(1, Ordering::SeqCst));
     out["tid"] = json!(format!("{:?}", std::thread::current().id()));
